@@ -50,6 +50,8 @@ Clauses(e) ==
           no_share |-> e.shared = 0 ]
     ELSE IF e.exc # "" THEN [ no_exc |-> e.op = "get_oob" /\ e.exc = "IndexError" ]
     ELSE IF e.op = "get_oob" THEN [ raises |-> FALSE ]
+    \* a key that is not a declared field is refused (ValueError) or at least never becomes a field of the list
+    ELSE IF e.op = "from_dict_undeclared" THEN [ declared_only |-> e.refused \/ FieldsOK(e) ]
     ELSE Sem(e)
 
 Failing(e) == LET c == Clauses(e) IN { k \in DOMAIN c : ~c[k] }
